@@ -216,7 +216,10 @@ FIELDS: dict[str, int] = {ELEM: 0}
 EXTERNALS: dict[str, int] = {}   # library functions that were called but not inlined (trusted pure)
 # functions of the library itself that are not inlined: they go through Lark / regular expressions and are modelled
 # functionally elsewhere (C15); trusted here to write none of their arguments
-TRUSTED_PURE = {"simaple.spec._math.evaluate_expression"}
+TRUSTED_PURE = {"simaple.spec._math.evaluate_expression",
+                # lazily loaded process-wide table (YAML): returns the shared table object; its one-time initialisation
+                # is the only write, to the module global, and is part of C02's inventory of shared state
+                "simaple.gear.blueprint.potential_blueprint._global_load_kms_potential_table"}
 # subclasses defined here are not considered by the class-hierarchy analysis: the gear-set builder of the baseline
 # environment provider has its own patches (GearIdPatch fills a lazy name index of its GearRepository); they are not
 # part of the job / skill build path that the properties anchor
@@ -309,6 +312,8 @@ class Lowerer:
         self.stack: list = []          # functions being inlined (recursion guard)
         self.ambient: list[str] = []   # uses of ambient sources (random, time, ...)
         self.rec_fn = None             # (function, class of self) of the recursive procedure, if any
+        self.proc_names: set = set()   # method names lowered as separately checked procedures (`call`), not inlined
+        self.procs: dict = {}          # (code, class) -> procedure ir | None (None: has to be inlined)
         self.split_mode = False        # lower each statement list once per return site of the calls it makes
         self.site_choice: dict = {}    # call site -> index of the return statement that is taken
         self.call_key = None
@@ -379,6 +384,11 @@ class Lowerer:
         fn = raw
         selfv = self.prog.newvar("self")
         self_av = AV(var=selfv, ty=Inst(cls), exact=True)
+        if isinstance(raw, classmethod):
+            fn = raw.__func__
+            self_av = AV(pyobj=cls, has_pyobj=True)
+        elif isinstance(raw, staticmethod):
+            raise Unsupported("static method as an entry point")
         sig_fn = inspect.unwrap(fn)
         params = list(inspect.signature(sig_fn).parameters.values())[1:]
         hints = typing.get_type_hints(sig_fn) if True else {}
@@ -430,6 +440,24 @@ class Lowerer:
             return AV(var=v, ty=UNKNOWN)
         if not mod.startswith(INLINE_MODULES):
             return self.call_external(fn, args, kwargs)
+        if fn.__name__ in self.proc_names and yield_handler is None and not is_generator(fn) and \
+                not getattr(self, "in_proc", False):
+            key = (fn.__code__, self_cls)
+            if key not in self.procs:
+                self.procs[key] = self.lower_procedure(fn, self_cls)
+            if self.procs[key] is not None:
+                for a in list(args) + list(kwargs.values()):
+                    if a.var is None and not a.is_prim():
+                        self.materialise(a)
+                d = self.tmp("proc")
+                self.emit(("call", d))
+                try:
+                    rty = ty_of_annotation(typing.get_type_hints(fn).get("return", inspect.Parameter.empty), fn.__globals__)
+                except Exception:  # noqa: BLE001
+                    rty = UNKNOWN
+                if rty == PRIM:
+                    return AV(ty=PRIM)
+                return AV(var=d, ty=rty)
         if fn.__code__ in [f.__code__ for f in self.stack]:
             # a recursive call: `call dst` of the designated procedure (one per program), lowered separately
             if self.rec_fn is not None and self.rec_fn[0].__code__ is not fn.__code__:
@@ -473,6 +501,53 @@ class Lowerer:
         if fr.ret is None:
             return AV(ty=PRIM, var=self.prim("none").var)
         return fr.ret
+
+    def lower_procedure(self, fn, self_cls):
+        """the function as a procedure of its own: every parameter holds an arbitrary pre-existing object.  Returns the
+        ir, or None when it cannot be lowered that way or writes what it is given (then the caller inlines it)"""
+        saved = (self.blocks, getattr(self, "frame", None), self.stack, self.call_key, getattr(self, "in_try", 0))
+        self.blocks, self.stack, self.call_key, self.in_try = [[]], [], None, 0
+        self.in_proc = True
+        try:
+            node = func_ast(fn)
+            params = [a.arg for a in node.args.posonlyargs + node.args.args]
+            try:
+                hints = typing.get_type_hints(fn)
+            except Exception:  # noqa: BLE001
+                hints = {}
+            avs = []
+            for i, pn in enumerate(params):
+                v = self.prog.newvar(f"{pn}@proc")
+                if i == 0 and self_cls is not None and pn in ("self", "cls"):
+                    avs.append(AV(var=v, ty=Inst(self_cls)))
+                    continue
+                ty = ty_of_annotation(hints.get(pn, inspect.Parameter.empty), fn.__globals__)
+                if ty == PRIM:
+                    self.emit(("havoc", v))
+                avs.append(AV(var=v, ty=ty))
+            self.in_proc = False          # nested procedure calls inside the procedure are fine
+            nreq = len(params) - len(node.args.defaults)
+            self.call_function_inline(fn, avs, {}, self_cls)
+            ir = seq(self.blocks[0])
+            flex = dict(self.prog.flex)
+            if py_check(resolve(ir, flex), ["shared"] * len(self.prog.varnames), self.prog.varnames) is None:
+                # try the kind search on the procedure alone
+                _r, taint = choose_kinds(ir, self.prog)
+                if taint or py_check(_r, ["shared"] * len(self.prog.varnames), self.prog.varnames) is None:
+                    return None
+            return ir
+        except Unsupported:
+            return None
+        finally:
+            self.in_proc = False
+            self.blocks, self.frame, self.stack, self.call_key, self.in_try = saved
+
+    def call_function_inline(self, fn, args, kwargs, self_cls):
+        names, self.proc_names = self.proc_names, self.proc_names - {fn.__name__}
+        try:
+            return self.call_function(fn, args, kwargs, self_cls=self_cls)
+        finally:
+            self.proc_names = names
 
     def bind_params(self, fr: Frame, fn, node, args, kwargs):
         a = node.args
@@ -520,9 +595,19 @@ class Lowerer:
             if n in given:
                 av = given[n]
             elif d is not None:
-                if not isinstance(d, ast.Constant):
-                    raise Unsupported(f"non-constant default in {fn.__qualname__}")
-                av = AV(ty=PRIM)   # bound lazily below
+                try:
+                    val = ast.literal_eval(d)
+                    immutable = isinstance(val, (int, float, str, bool, type(None), bytes, tuple, frozenset))
+                except Exception:  # noqa: BLE001
+                    immutable = isinstance(d, (ast.Attribute, ast.Name)) and False
+                    val = None
+                if immutable:
+                    av = AV(ty=PRIM)
+                else:
+                    # a default evaluated once at definition time (a mutable default is shared by all calls)
+                    v_ = self.tmp(n + "@default")
+                    self.emit(("ext", v_))
+                    av = AV(var=v_, ty=UNKNOWN)
             else:
                 raise Unsupported(f"missing argument {n} for {fn.__qualname__}")
             self.bind_local(fr, n, av)
@@ -536,10 +621,14 @@ class Lowerer:
             items = av.items
             av = self.materialise(av)
             av.shadow = items
+        if av.items is not None and not av.is_prim() and name in fr.vars:
+            av = self.materialise(av)      # the name already has a variable (assigned on another path): no symbolic value
         if av.items is not None and not av.is_prim():
             # static tuple kept symbolically (only straight-line use is supported)
             fr.locals[name] = AV(items=av.items)
             return
+        if av.var is None and av.has_pyobj and av.func is None and not self.is_immutable_pyobj(av.pyobj):
+            av = self.materialise(av)       # a module- or class-level mutable object: from now on an ordinary reference
         if av.var is None and not av.is_prim() and (av.func is not None or av.has_pyobj or av.bmeth or av.gen or av.iterkind):
             fr.locals[name] = av
             return
@@ -1473,7 +1562,16 @@ class Lowerer:
                 node = func_ast(init)
             except Exception:  # noqa: BLE001
                 continue
+            try:
+                phints = typing.get_type_hints(init)
+            except Exception:  # noqa: BLE001
+                phints = {}
             for n in ast.walk(node):
+                # self.x = <parameter>: the parameter's annotation
+                if isinstance(n, ast.Assign) and len(n.targets) == 1 and isinstance(n.targets[0], ast.Attribute) and \
+                        isinstance(n.targets[0].value, ast.Name) and n.targets[0].value.id == "self" and \
+                        isinstance(n.value, ast.Name) and n.value.id in phints:
+                    out.setdefault(n.targets[0].attr, ty_of_annotation(phints[n.value.id], init.__globals__))
                 if isinstance(n, ast.AnnAssign) and isinstance(n.target, ast.Attribute) and \
                         isinstance(n.target.value, ast.Name) and n.target.value.id == "self":
                     try:
@@ -1757,7 +1855,24 @@ class Lowerer:
         if name == "getattr":
             if args[1].has_pyobj and isinstance(args[1].pyobj, str):
                 return self.attribute(args[0], args[1].pyobj)
-            raise Unsupported("getattr with a computed name")
+            # a computed attribute name: any data field of the object may be read
+            recv = args[0]
+            if recv.is_prim():
+                return AV(ty=PRIM)
+            m = self.materialise(recv)
+            if m.ty[0] == "inst" and getattr(m.ty[1], "model_fields", None):
+                cls_ = m.ty[1]
+                try:
+                    hints = typing.get_type_hints(cls_)
+                except Exception:  # noqa: BLE001
+                    hints = {}
+                tys = [ty_of_annotation(hints.get(k, f.annotation), vars(sys.modules[cls_.__module__]))
+                       for k, f in cls_.model_fields.items()]
+                if all(t == PRIM for t in tys):
+                    return AV(ty=PRIM)
+            x = self.tmp("attr")
+            self.emit(("load", x, m.var, fid(ELEM)))
+            return AV(var=x, ty=UNKNOWN)
         if name in ("min", "max"):
             if all(a.is_prim() for a in args):
                 return AV(ty=PRIM)
@@ -1839,6 +1954,19 @@ class Lowerer:
         if cls in (list, set, frozenset, tuple, dict, range, enumerate, zip, map, filter, reversed):
             return self.builtin(cls, args, kwargs, None)
         mod = cls.__module__ or ""
+        if mod == "itertools":
+            # combinations / product / chain / ...: a new iterable whose items are built from the arguments' items
+            d = self.tmp(cls.__name__)
+            self.emit(("newShallow", d))
+            for a in list(args) + list(kwargs.values()):
+                if a.is_prim() or (a.iterkind is not None and a.iterkind[0] in ("range", "keys")):
+                    continue
+                self.push()
+                el = self.elements(a if a.items is None else self.materialise(a))
+                if not el.is_prim():
+                    self.emit(("store", d, fid(ELEM), self.materialise(el).var))
+                self.emit(("loop", self.pop()))
+            return AV(var=d, ty=ListOf(UNKNOWN))
         is_model = hasattr(cls, "model_fields")
         if is_model:
             if args:
@@ -1855,7 +1983,7 @@ class Lowerer:
         if mod.startswith(INLINE_MODULES):
             init = cls.__dict__.get("__init__") or next((c.__dict__["__init__"] for c in cls.__mro__ if "__init__" in c.__dict__ and c is not object), None)
             v = self.tmp(cls.__name__)
-            self.emit(("newShallow", v))
+            self.alloc(v, "newShallow")
             obj = AV(var=v, ty=Inst(cls), attrs={}, exact=True)
             if init is not None:
                 self.call_function(init, [obj] + args, kwargs, self_cls=cls)
@@ -2007,7 +2135,85 @@ def lower_all():
                     ent.update({"prog": None, "error": "recursion limit"})
                     break
             entries.append(ent)
+    entries.extend(lower_hooks())
     return entries
+
+
+HOOK_KINDS = ("validators", "field_validators", "root_validators", "field_serializers", "model_serializers",
+              "model_validators", "computed_fields")
+SPECIAL_METHODS = ("model_post_init", "__init__", "__setattr__", "__getattr__", "__getattribute__", "__deepcopy__",
+                   "__copy__", "__eq__", "__hash__", "__delattr__", "__set_name__", "__init_subclass__")
+
+
+def lower_hooks():
+    """code that runs IMPLICITLY around a reducer or view call: pydantic validators / serializers / computed fields and
+    special methods of every entity, state and component class (a state object is constructed from the store's own
+    entities on every dispatch, so a validator that assigns to an entity writes the store behind the reducer's back).
+    Each is lowered like a method with every argument pre-existing; special methods that change how attributes behave
+    are not modelled at all and are reported as not lowered."""
+    import pydantic
+    from simaple.simulate.base import Entity
+    from simaple.simulate.component.base import Component, ReducerState
+    component_classes()
+
+    def subs(c):
+        for x in c.__subclasses__():
+            yield x
+            yield from subs(x)
+    classes = sorted(set(subs(Entity)) | set(subs(ReducerState)) | set(subs(Component)), key=lambda c: (c.__module__, c.__name__))
+    out = []
+    seen = set()
+    for c in classes:
+        if not (c.__module__ or "").startswith("simaple."):
+            continue
+        found = []
+        d = getattr(c, "__pydantic_decorators__", None)
+        for kind in HOOK_KINDS:
+            for n, dec in (getattr(d, kind, {}) or {}).items():
+                f = dec.func
+                f = getattr(f, "__func__", f)
+                found.append((n, f, kind))
+        for special in SPECIAL_METHODS:
+            for k in c.__mro__:
+                if k in (pydantic.BaseModel, object) or (k.__module__ or "").startswith(("pydantic", "abc", "typing")):
+                    break
+                if special in k.__dict__:
+                    f = k.__dict__[special]
+                    found.append((special, getattr(f, "__func__", f), "special"))
+                    break
+        for n, f, kind in found:
+            key = (getattr(f, "__code__", None), c if kind != "special" else None)
+            if key in seen:
+                continue
+            seen.add(key)
+            ent = {"cls": c.__name__, "module": c.__module__, "method": n, "kind": "hook"}
+            if kind == "special" and n not in ("model_post_init", "__init__"):
+                ent.update({"prog": None, "error": f"{n} is overridden: attribute access / copying is no longer what the model assumes"})
+                out.append(ent)
+                continue
+            prog = Program()
+            lw = Lowerer(prog)
+            try:
+                if not isinstance(f, types.FunctionType):
+                    raise Unsupported(f"{kind} {n} is not a plain function")
+                node = func_ast(f)
+                params = [a.arg for a in node.args.posonlyargs + node.args.args]
+                avs = []
+                for i, pn in enumerate(params):
+                    v = prog.newvar(pn)
+                    if i == 0 and pn == "self":
+                        avs.append(AV(var=v, ty=Inst(c)))
+                    elif i == 0 and pn == "cls":
+                        avs.append(AV(pyobj=c, has_pyobj=True))
+                    else:
+                        avs.append(AV(var=v, ty=UNKNOWN))
+                lw.call_function(f, avs, {}, self_cls=c)
+                ir, taint = choose_kinds(seq(lw.blocks[0]), prog)
+                ent.update({"prog": ir, "taint": taint, "nvars": len(prog.varnames), "result": None, "error": None, "split": 0})
+            except Unsupported as ex:
+                ent.update({"prog": None, "error": str(ex)})
+            out.append(ent)
+    return out
 
 
 def patch_classes():
@@ -2043,45 +2249,166 @@ def lower_patches():
     for cls, meth in targets:
         prog = Program()
         lw = Lowerer(prog)
+        lw.proc_names = set(PATCH_PROCEDURE_NAMES)
         ent = {"cls": cls.__name__, "module": cls.__module__, "method": meth, "kind": "patch"}
         try:
             res, argvars, selfv = lw.lower_method(cls, meth, "patch")
             ir = seq(lw.blocks[0])
-            body = ("skip",)
-            if lw.rec_fn is not None:
-                fn, scls = lw.rec_fn
-                lw.blocks = [[]]
-                node = func_ast(fn)
-                params = [a.arg for a in node.args.posonlyargs + node.args.args]
-                hints = {}
-                try:
-                    hints = typing.get_type_hints(fn)
-                except Exception:
-                    pass
-                avs = []
-                for i, pn in enumerate(params):
-                    v = prog.newvar(f"{pn}@rec")
-                    if i == 0 and scls is not None and pn in ("self", "cls"):
-                        avs.append(AV(var=v, ty=Inst(scls), exact=(scls is cls)))
-                        continue
-                    ty = ty_of_annotation(hints.get(pn, inspect.Parameter.empty), fn.__globals__)
-                    if ty == PRIM:
-                        lw.emit(("havoc", v))
-                    avs.append(AV(var=v, ty=ty))
-                lw.stack = []
-                lw.call_function(fn, avs, {}, self_cls=scls)
-                body = seq(lw.blocks[0])
-            joint = seq([ir, body])
-            _res, taint = choose_kinds(joint, prog)
-            flex = chosen_flex(joint, prog, taint)
-            ent.update({"prog": resolve(ir, flex), "body": resolve(body, flex), "taint": taint,
-                        "nvars": len(prog.varnames), "error": None, "recursive": lw.rec_fn[0].__qualname__ if lw.rec_fn else None})
+            centry, cbody, taint, nv, _me, nprocs = finish_entry(lw, prog, ir, cls)
+            ent.update({"prog": centry, "body": cbody, "taint": taint, "nvars": nv, "error": None, "procedures": nprocs,
+                        "recursive": lw.rec_fn[0].__qualname__ if lw.rec_fn else None})
         except Unsupported as ex:
             ent.update({"prog": None, "error": str(ex)})
         except RecursionError:
             ent.update({"prog": None, "error": "recursion limit"})
         entries.append(ent)
     return entries
+
+
+def lower_rec_body(lw, prog, entry_cls):
+    """the recursive procedure found while lowering (lw.rec_fn) as a program of its own"""
+    fn, scls = lw.rec_fn
+    saved = lw.blocks
+    lw.blocks = [[]]
+    node = func_ast(fn)
+    params = [a.arg for a in node.args.posonlyargs + node.args.args]
+    try:
+        hints = typing.get_type_hints(fn)
+    except Exception:  # noqa: BLE001
+        hints = {}
+    avs = []
+    for i, pn in enumerate(params):
+        v = prog.newvar(f"{pn}@rec")
+        if i == 0 and scls is not None and pn in ("self", "cls"):
+            avs.append(AV(var=v, ty=Inst(scls), exact=(scls is entry_cls)))
+            continue
+        ty = ty_of_annotation(hints.get(pn, inspect.Parameter.empty), fn.__globals__)
+        if ty == PRIM:
+            lw.emit(("havoc", v))
+        avs.append(AV(var=v, ty=ty))
+    lw.stack = []
+    names, lw.proc_names = lw.proc_names, lw.proc_names - {fn.__name__}
+    try:
+        lw.call_function(fn, avs, {}, self_cls=scls)
+    finally:
+        lw.proc_names = names
+    body = seq(lw.blocks[0])
+    lw.blocks = saved
+    return body
+
+
+def finish_entry(lw, prog, ir, entry_cls, keep=()):
+    """entry program + the procedures its `call` statements may run (separately lowered callees and the recursive
+    procedure, if any): kinds and taint chosen on all of them together, then every program numbered densely on its
+    own.  -> (entry, body, taint, nvars, variable map of the entry, number of procedures)"""
+    rec = lower_rec_body(lw, prog, entry_cls) if lw.rec_fn is not None else None
+    procs = [p_ for p_ in lw.procs.values() if p_ is not None] + ([rec] if rec is not None else [])
+    joint = seq([ir] + procs)
+    _res, taint = choose_kinds(joint, prog)
+    flex = prog.last_flex
+    centry, cprocs, nv, me = compact(resolve(ir, flex), [resolve(p_, flex) for p_ in procs], keep=keep)
+    cbody = ("skip",)
+    for p_ in cprocs:            # `call` runs ANY of the procedures: their choice is the procedure body
+        cbody = p_ if cbody == ("skip",) else ("choice", cbody, p_)
+    return centry, cbody, taint, nv, me, len(procs)
+
+
+# the patch chain: every `apply` / `modify` that is pure on its own is a procedure; one that writes the document it is
+# given is inlined where `Spec.interpret` calls it (on the deep copy)
+PATCH_PROCEDURE_NAMES = ("apply", "modify", "evaluate", "translate", "get_skill_level")
+
+# methods that a property says must not alter what they are given: (property, module, class, method, result must be new)
+# methods lowered as separately checked procedures instead of being inlined into the pure targets (they are
+# themselves pure: started from arbitrary pre-existing arguments they write nothing they were given)
+PROCEDURE_NAMES = ("calculate_improvement", "get_single_starforce_improvement", "get_increment", "get_starforce_increment",
+                   "max_star")
+PURE_TARGETS = [
+    ("C17", "simaple.gear.blueprint.gear_blueprint", "GeneralizedGearBlueprint", "build", False),
+    ("C17", "simaple.gear.blueprint.gear_blueprint", "PracticalGearBlueprint", "build", False),
+    ("C11", "simaple.core.base", "Stat", "__add__", True),
+    ("C11", "simaple.core.base", "Stat", "sum", True),
+    ("C11", "simaple.core.base", "Stat", "stack", True),
+    ("C11", "simaple.core.base", "ActionStat", "__add__", True),
+    ("C11", "simaple.core.base", "LevelStat", "__add__", True),
+    ("C11", "simaple.core.base", "LevelStat", "get_stat", True),
+    ("C11", "simaple.core.base", "ExtendedStat", "__add__", True),
+    ("C11", "simaple.core.base", "ExtendedStat", "compute_by_level", True),
+]
+
+
+def lower_pure_targets():
+    entries = []
+    for prop, mod, cn, meth, fresh in PURE_TARGETS:
+        ent = {"prop": prop, "cls": cn, "method": meth, "fresh": fresh}
+        try:
+            cls = getattr(importlib.import_module(mod), cn)
+            prog = Program()
+            lw = Lowerer(prog)
+            lw.proc_names = set(PROCEDURE_NAMES)
+            res, argvars, selfv = lw.lower_method(cls, meth, "pure")
+            rv = None
+            if res is not None and res.items is None and not res.is_prim():
+                rv = lw.materialise(res).var
+            ir = seq(lw.blocks[0])
+            centry, cbody, taint, nv, me, nprocs = finish_entry(lw, prog, ir, cls, keep=(rv,))
+            ent.update({"prog": centry, "body": cbody, "taint": taint, "nvars": nv,
+                        "result": None if rv is None else me[rv], "error": None, "procedures": nprocs})
+        except Unsupported as ex:
+            ent.update({"prog": None, "error": str(ex)})
+        except RecursionError:
+            ent.update({"prog": None, "error": "recursion limit"})
+        entries.append(ent)
+    return entries
+
+
+VAR_POS = {"copy": (1, 2), "new": (1,), "newShallow": (1,), "load": (1, 2), "store": (1, 3), "mov": (1, 2), "havoc": (1,),
+           "ext": (1,), "call": (1,), "alloc": (1,)}
+
+
+def vars_of(ir, acc):
+    k = ir[0]
+    if k == "seq":
+        for p in ir[1]:
+            vars_of(p, acc)
+    elif k == "choice":
+        vars_of(ir[1], acc); vars_of(ir[2], acc)
+    elif k == "loop":
+        vars_of(ir[1], acc)
+    else:
+        for i in VAR_POS.get(k, ()):
+            if ir[i] not in acc:
+                acc[ir[i]] = len(acc)
+    return acc
+
+
+def rename(ir, m):
+    k = ir[0]
+    if k == "seq":
+        return ("seq", [rename(p, m) for p in ir[1]])
+    if k == "choice":
+        return ("choice", rename(ir[1], m), rename(ir[2], m))
+    if k == "loop":
+        return ("loop", rename(ir[1], m))
+    pos = VAR_POS.get(k, ())
+    return tuple(m[x] if i in pos else x for i, x in enumerate(ir))
+
+
+def compact(entry, procs, keep=()):
+    """number the variables of the entry program and of every procedure densely from 0, each on its own: a procedure
+    starts from an arbitrary environment and the caller's environment is restored after the call (Model/Effect.lean,
+    `Exec.call`), so the programs may use the same variable numbers.  -> (entry, procs, number of variables, map of
+    the entry)"""
+    me = vars_of(entry, {})
+    for v in keep:
+        if v is not None and v not in me:
+            me[v] = len(me)
+    n = len(me)
+    out = []
+    for p_ in procs:
+        mp = vars_of(p_, {})
+        n = max(n, len(mp))
+        out.append(rename(p_, mp))
+    return rename(entry, me), out, max(n, 1), me
 
 
 def to_lean(ir) -> str:
@@ -2094,6 +2421,12 @@ def to_lean(ir) -> str:
         return f".call {ir[1]}"
     if k == "seq":
         parts = ir[1]
+        if len(parts) > 8:
+            # a balanced tree (the elaborator's recursion depth is limited; `seq` is associative in `Exec`)
+            mid = len(parts) // 2
+            return f".seq ({to_lean(('seq', parts[:mid]))}) ({to_lean(('seq', parts[mid:]))})"
+        if len(parts) == 1:
+            return to_lean(parts[0])
         s = to_lean(parts[-1])
         for p in reversed(parts[:-1]):
             s = f".seq ({to_lean(p)}) ({s})"
@@ -2175,6 +2508,27 @@ def generate(repo: str) -> str:
     lines.append("def patchTable : List PatchEntry := [\n" + ",\n".join(prow) + "\n]\n")
     lines.append("def patchesNotLowered : List (String × String) := [" +
                  ", ".join(f'("{e["cls"]}", "{(e["error"] or "").replace(chr(34), chr(39))[:120]}")' for e in pents if e["prog"] is None) + "]\n")
+    # ---- methods a property says must not alter what they are given (C11 operators, C17 blueprint building)
+    pure = lower_pure_targets()
+    purerows = []
+    for e in pure:
+        if e["prog"] is None:
+            continue
+        pb, bb = to_lean(e["prog"]), to_lean(e["body"])
+        nm = "r_" + hashlib.sha1(pb.encode()).hexdigest()[:12]
+        bn = "r_" + hashlib.sha1(bb.encode()).hexdigest()[:12]
+        for n_, t_ in ((nm, pb), (bn, bb)):
+            if n_ not in progs:
+                progs[n_] = t_
+                lines.append(f"def {n_} : Stmt :=\n  {t_}\n")
+        res = "none" if e["result"] is None else f"some {e['result']}"
+        purerows.append(f'  ⟨{int(e["prop"][1:])}, "{e["cls"]}.{e["method"]}", {"true" if e["fresh"] else "false"}, {e["taint"]}, '
+                        f'{e["nvars"]}, {bn}, {nm}, {res}⟩')
+    lines.append("structure PureEntry where\n  prop : Nat\n  name : String\n  freshResult : Bool\n  taint : List Field\n"
+                 "  nvars : Nat\n  body : Stmt\n  prog : Stmt\n  result : Option Var\n")
+    lines.append("def pureTable : List PureEntry := [\n" + ",\n".join(purerows) + "\n]\n")
+    lines.append("def pureNotLowered : List (String × String) := [" +
+                 ", ".join(f'("{e["cls"]}.{e["method"]}", "{(e["error"] or "").replace(chr(34), chr(39))[:120]}")' for e in pure if e["prog"] is None) + "]\n")
     bad = bad  # components
     lines.append("/-- methods the translator could not lower (must be empty for the coverage theorem) -/")
     lines.append("def notLowered : List (String × String × String) := [" +
@@ -2196,17 +2550,17 @@ def resolve(ir, flex):
     return ir
 
 
-def mov_edges(ir, acc):
+def mov_edges(ir, acc, loads=False):
     k = ir[0]
-    if k == "mov":
+    if k == "mov" or (loads and k == "load"):
         acc.setdefault(ir[1], set()).add(ir[2])
     elif k == "seq":
         for p in ir[1]:
-            mov_edges(p, acc)
+            mov_edges(p, acc, loads)
     elif k == "choice":
-        mov_edges(ir[1], acc); mov_edges(ir[2], acc)
+        mov_edges(ir[1], acc, loads); mov_edges(ir[2], acc, loads)
     elif k == "loop":
-        mov_edges(ir[1], acc)
+        mov_edges(ir[1], acc, loads)
     return acc
 
 
@@ -2226,6 +2580,7 @@ def choose_kinds(ir, prog: Program):
     theorem, and the result is checked in Lean).  -> (resolved ir, sorted taint list)"""
     flex = dict(prog.flex)
     edges = mov_edges(ir, {})
+    load_edges = mov_edges(ir, {}, loads=True)
     names = prog.varnames
     tried = set()
     taint: set[int] = set()
@@ -2239,6 +2594,10 @@ def choose_kinds(ir, prog: Program):
         if tt == "fresh" and st not in ("fresh", "prim"):
             cands += [(s, "newShallow") for s in ancestors(tv, edges) if flex.get(s) == "new"]
             cands += [(s, "new") for s in ancestors(sv, edges) if flex.get(s) == "newShallow"]
+        if tt == "shared":
+            # the target was loaded out of an object allocated here as `newShallow`: make that object deep (what it
+            # holds of pre-existing objects then has to sit in tainted fields, found by the next rounds)
+            cands += [(s, "new") for s in ancestors(tv, load_edges) if flex.get(s) == "newShallow"]
         cands = [c for c in cands if c not in tried]
         if not cands:
             if tt == "fresh" and fld != FIELDS[ELEM] and fld not in taint:
@@ -2366,7 +2725,13 @@ if __name__ == "__main__":
             rep = []
             names = ["?"] * e["nvars"]
             ok = py_check(seq([e["prog"], e["body"]]), ["shared"] * e["nvars"], names, report=rep, T=e["taint"])
-            print("  ", e["cls"] + "." + e["method"], "recursive:", e["recursive"], "taint", e["taint"], "WF" if ok is not None else ("REJECTED " + str([r[-1] for r in rep[:2]])))
+            print("  ", e["cls"] + "." + e["method"], "recursive:", e["recursive"], "taint", e["taint"], "nvars", e["nvars"],
+                  "procs", e.get("procedures"), "size", len(str(e["prog"])) // 20, "+", len(str(e["body"])) // 20,
+                  "WF" if ok is not None else ("REJECTED " + str([r[-1] for r in rep[:2]])))
+    for e in lower_pure_targets():
+        print("  pure target", e["prop"], e["cls"] + "." + e["method"],
+              f"ok size {len(str(e['prog'])) // 20}+{len(str(e['body'])) // 20} nvars {e['nvars']} procs {e.get('procedures')}"
+              if e["prog"] is not None else e["error"])
     print("externals (not inlined, trusted not to write their arguments):", EXTERNALS)
     import collections
     errs = collections.Counter(e["error"] for e in ents if e["prog"] is None)
